@@ -135,6 +135,7 @@ def run(chk, repo, tier):
     run_more(chk, repo, dm)
     run_q8(chk, repo, dm)
     run_q9_q10(chk, repo, dm)
+    run_q11_q13(chk, repo)
 
 
 def run_more(chk, repo, dm):
@@ -389,3 +390,81 @@ def run_q9_q10(chk, repo, dm):
                           line=c.lineno,
                           witness='two individuals, the first ending on route 2, the second starting with observations before '
                                   'its first dose: they get admid 2')
+
+
+def run_q11_q13(chk, repo):
+    """Q11: without a CMT column, dose records (EVID 1 and EVID 4) get the dosing compartment, other events 0; Q12:
+    add_time_after_dose works on a copy of the input model's dataset (the time-translated temporary only supplies the helper
+    time); Q13: the rows of expanded additional doses are removed only after TAD was computed from them"""
+    from sa import reach
+    dm = repo.module('pharmpy.modeling.data')
+    Q11 = chk.rule('Q11', 'get_cmt (no CMT column): EVID 1 and EVID 4 are both dose records', floor=1)
+    f = dm.functions.get('get_cmt')
+    if f is None:
+        raise AnalysisError('get_cmt not found')
+    dicts = [d for d in ast.walk(f.node) if isinstance(d, ast.Dict) and d.keys and all(
+        isinstance(k, ast.Constant) and isinstance(k.value, int) for k in d.keys)]
+    n11 = 0
+    for d in dicts:
+        m_ = {k.value: unparse(v) for k, v in zip(d.keys, d.values)}
+        if 1 in m_:
+            n11 += 1
+            ok = m_.get(4) == m_[1] and m_[1] != '0'
+            chk.instance(Q11, f'get_cmt: EVID map {m_}: 4 treated like 1: {ok}')
+            if not ok:
+                chk.violation(Q11, dm.rel, f.name, unparse(d)[:80], 'EVID=4 (reset and dose) is not given the dosing compartment',
+                              line=d.lineno, witness='a dataset with EVID=4 dose records and no CMT column: add_cmt puts them '
+                                                     'into compartment 0')
+    if n11 == 0:
+        # another spelling: comparisons of the EVID series with constants
+        consts = {c.value for x in ast.walk(f.node) if isinstance(x, (ast.Compare, ast.Call))
+                  for c in ast.walk(x) if isinstance(c, ast.Constant) and isinstance(c.value, int)
+                  and ('evid' in unparse(x).lower())}
+        if not consts:
+            raise AnalysisError('Q11: EVID handling of get_cmt not recognised')
+        n11 += 1
+        ok = {1, 4} <= consts
+        chk.instance(Q11, f'get_cmt: EVID values compared {sorted(consts)}: 1 and 4 both dose: {ok}')
+        if not ok:
+            chk.violation(Q11, dm.rel, f.name, f'EVID compared with {sorted(consts)}',
+                          'EVID=4 (reset and dose) is not given the dosing compartment', line=f.node.lineno,
+                          witness='a dataset with EVID=4 dose records and no CMT column: add_cmt puts them into compartment 0')
+    g = dm.functions.get('add_time_after_dose')
+    if g is None:
+        raise AnalysisError('add_time_after_dose not found')
+    cfg = CFG(g.node)
+    Q12 = chk.rule('Q12', 'add_time_after_dose: the frame that becomes the new dataset starts as a copy of the INPUT model\'s '
+                          'dataset', floor=1)
+    par = g.params[0]
+    outs = [k.value for c in calls_in(g.node) if isinstance(c.func, ast.Attribute) and c.func.attr == 'replace'
+            for k in c.keywords if k.arg == 'dataset']
+    if not outs:
+        raise AnalysisError('Q12: model.replace(dataset=...) not found in add_time_after_dose')
+    for o in outs:
+        nm = o.id if isinstance(o, ast.Name) else None
+        firsts = sorted([a for a in walk_no_nested(g.node) if isinstance(a, ast.Assign) and isinstance(a.targets[0], ast.Name)
+                         and a.targets[0].id == nm], key=lambda a: a.lineno)
+        src = unparse(firsts[0].value) if firsts else unparse(o)
+        ok = f'{par}.dataset' in src
+        chk.instance(Q12, f'add_time_after_dose: result frame `{nm}` starts as `{src[:50]}` (input model: {ok})')
+        if not ok:
+            chk.violation(Q12, dm.rel, g.name, src[:80],
+                          'the result is built from the time-translated temporary model: existing columns (TIME as clock time, '
+                          'DATE) come back converted', line=firsts[0].lineno if firsts else g.node.lineno,
+                          witness='a dataset with TIME 8:00, 13:15: after add_time_after_dose TIME holds float hours')
+    Q13 = chk.rule('Q13', 'add_time_after_dose: expanded additional-dose rows are dropped after TAD has been computed', floor=1)
+    drops = [n for n in cfg.nodes.values() if n.kind == 'stmt' and n.ast is not None and "'EXPANDED'" in unparse(n.ast)
+             and any(isinstance(u, ast.UnaryOp) and isinstance(u.op, ast.Invert) for u in ast.walk(n.ast))]
+    tads = [n for n in cfg.nodes.values() if n.kind == 'stmt' and isinstance(n.ast, ast.Assign)
+            and "'TAD'" in unparse(n.ast.targets[0]) and any(isinstance(c, ast.Call) and isinstance(c.func, ast.Attribute)
+                                                              and c.func.attr in ('diff', 'cumsum') for c in ast.walk(n.ast.value))]
+    if not drops or not tads:
+        raise AnalysisError(f'Q13: removal of the EXPANDED rows ({len(drops)}) / computation of TAD ({len(tads)}) not found')
+    for d in drops:
+        late = [t for t in tads if t.id in cfg.reachable(d.id)]
+        chk.instance(Q13, f'add_time_after_dose: `{d.text()[:50]}` comes after the TAD computation: {not late}')
+        if late:
+            chk.violation(Q13, dm.rel, g.name, f'{d.text()[:50]} before {late[0].text()[:40]}',
+                          'the implicit additional doses are gone when TAD is computed: an observation after an additional '
+                          'dose counts from the explicit dose record (or gets 0)', line=d.line,
+                          witness='ADDL=2 II=12 and an observation at 14 h: TAD 14 (or 0) instead of 2')
